@@ -160,6 +160,11 @@ type job struct {
 	base  int // entries [0,base) are forced; later entries are owned by the job
 }
 
+// MaxCex: exploration of a harness stops after this many counterexamples (check.json: max_cex). A small harness whose
+// counterexamples are mostly not replayable natively (injected faults) sets it higher so that the replayable ones are
+// not crowded out by exploration order.
+var MaxCex = 12
+
 type shared struct {
 	mu      sync.Mutex
 	cond    *sync.Cond
@@ -986,12 +991,12 @@ func (e *Exec) recordViolation(kind, msg string, m map[string]uint64) {
 		}
 	}
 	v := Violation{Harness: e.harness, Kind: kind, Msg: msg, Inputs: e.evalInputs(m), Path: e.pathString(), Tags: append([]string{}, e.tags...)}
-	if len(e.St.Violations) < 50 {
+	if len(e.St.Violations) < 50 || len(e.St.Violations) < MaxCex {
 		e.St.Violations = append(e.St.Violations, v)
 	}
 	e.sh.mu.Lock()
 	e.sh.nviol++
-	if e.sh.nviol >= 12 {
+	if e.sh.nviol >= MaxCex {
 		e.sh.stop = true // enough counterexamples: stop exploring this harness
 		e.sh.cond.Broadcast()
 	}
